@@ -25,10 +25,12 @@ Definition oev_same (a b : oev) : bool :=
   end.
 Inductive muxcase :=
 | MCRaised
+| MCSkip           (* pipeline contains an operator without Coq model: oracle only *)
 | MC (p : list op) (t : list iev) (out : list (list oev)).
 Definition mux_model (p : list op) (t : list iev) : list (list oev) := map (map norm) (run_pipe p t).
 Definition mux_check (c : muxcase) : bool :=
   match c with
   | MCRaised => false
+  | MCSkip => true
   | MC p t out => list_eqb (list_eqb oev_same) (mux_model p t) out
   end.
